@@ -103,6 +103,10 @@ func genMount(r *rand.Rand, dest string) MountJ {
 			m.Options = append(m.Options, o)
 		}
 	}
+	if r.Intn(40) == 0 {
+		// needs a shared host mount under the source: an error class on hosts without one
+		m.Options = append(m.Options, pick(r, []string{"rshared", "rslave"}))
+	}
 	return m
 }
 
@@ -474,10 +478,10 @@ func genAdj(r *rand.Rand, o adjOpts) AdjJ {
 			res.Pids = p64(rI64(r))
 		}
 		if r.Intn(3) == 0 {
-			res.Blockio = pstr(pick(r, []string{"gold", "silver", "bronze", "", "gold", "nosuch"}))
+			res.Blockio = pstr(pick(r, []string{"gold", "silver", "bronze", "", "gold", "silver", "bronze", "", "gold", "nosuch"}))
 		}
 		if r.Intn(3) == 0 {
-			res.Rdt = pstr(pick(r, []string{"gold", "silver", "", "gold", "nosuch"}))
+			res.Rdt = pstr(pick(r, []string{"gold", "silver", "", "gold", "silver", "", "gold", "silver", "nosuch"}))
 		}
 		lin.Resources = res
 	}
